@@ -134,7 +134,7 @@ func (c04) Run(c *Case, st *Stats) []Violation {
 				in[i] = column(snaps, e.Sig[i])
 			}
 			inst := c.ind()
-			r := runPipe(PipeOpts{SimOpts: SimOpts{Policy: pol, Record: rec, MaxSteps: 3_000_000}, Cap: cap, StepFeed: step}, in, inst.Build())
+			r := runPipe(PipeOpts{SimOpts: SimOpts{Policy: pol, Record: rec, MaxSteps: 3_000_000}, Cap: cap, StepFeed: step, EarlyFeed: c.Early}, in, inst.Build())
 			ok, _, _ := termination(&r.SimOut, r.Closed, r.ProdDone, r.Built)
 			return outcome{outs: r.Outs, avail: r.Avail, ok: ok && r.Err == nil, sim: &r.SimOut}
 		}
@@ -143,7 +143,7 @@ func (c04) Run(c *Case, st *Stats) []Violation {
 		idle = []int{0}
 		run = func(snaps []*asset.Snapshot, step bool, pol simrt.PolicySpec, cap int, rec bool) outcome {
 			s := c.strat()
-			r := runPipe(PipeOpts{SimOpts: SimOpts{Policy: pol, Record: rec, MaxSteps: 3_000_000}, Cap: cap, StepFeed: step}, [][]*asset.Snapshot{snaps},
+			r := runPipe(PipeOpts{SimOpts: SimOpts{Policy: pol, Record: rec, MaxSteps: 3_000_000}, Cap: cap, StepFeed: step, EarlyFeed: c.Early}, [][]*asset.Snapshot{snaps},
 				func(in []<-chan *asset.Snapshot) []<-chan strategy.Action {
 					return []<-chan strategy.Action{s.Compute(in[0])}
 				})
@@ -197,6 +197,30 @@ func (c04) Run(c *Case, st *Stats) []Violation {
 	}
 	if computed {
 		st.cell(c.Family, entity, cfgClass, verdict, c.Policy.Name)
+	}
+	// ---- Run E: the same series with what fits into the input channels queued before the pipeline
+	// is built. Run A has shown what each value is when nothing beyond its position exists yet;
+	// a value that changes (or goes missing) once later inputs are already waiting depends on them.
+	if c.Early && c.Cap > 0 {
+		e := run(series, false, c.Policy, c.Cap, false)
+		st.noteSim(e.sim)
+		st.Faults["later-inputs-already-queued-when-built"]++
+		if e.ok {
+		cmp:
+			for j := range final {
+				if len(e.outs[j]) != len(a.outs[j]) {
+					add("depends-on-future", desc+fmt.Sprintf("output %d has %d values when the inputs are queued before the pipeline is built, %d when each position is fed on its own", j, len(e.outs[j]), len(a.outs[j])), a.sim.Decisions)
+					break
+				}
+				for i := range e.outs[j] {
+					if !bitsEq(e.outs[j][i], a.outs[j][i]) {
+						add("depends-on-future", desc+fmt.Sprintf("output %d index %d (input position %d) is %v when later inputs are already queued at build time and %v when each position is fed on its own", j, i, i+idle[j], e.outs[j][i], a.outs[j][i]), a.sim.Decisions)
+						break cmp
+					}
+				}
+			}
+			st.Probes["queued-input-runs-compared"]++
+		}
 	}
 	// ---- Run B: cut points
 	var cuts []int
